@@ -18,6 +18,16 @@ def cases(tier, seed):
         for n in ns_ht:
             out.append({"op": "head", "n": n, "N": N, "G": G, "mask": {"kind": mk}, "witness": n == 2})
             out.append({"op": "tail", "n": n, "N": N, "G": G, "mask": {"kind": mk}, "witness": n == 2})
+    # the public glue GroupBy.head/tail/nth on directly constructed states (contiguous; chunked with per-chunk dictionaries)
+    lays = [None, [2, 2]] if tier == "quick" else [None, [3, 3], [2, 2, 2], [1, 5]]
+    Ng, Gg = (4, 2) if tier == "quick" else (6, 3)
+    for lay in lays:
+        for op, ns in (("nth", (-3, -1, 0, 1, 3) if tier == "quick" else range(-6, 7)), ("head", range(0, Ng + 2)), ("tail", range(0, Ng + 2))):
+            for n in ns:
+                c = {"op": op, "n": n, "N": Ng, "G": Gg, "mask": {"kind": "none"}, "via": "contiguous" if lay is None else "chunked"}
+                if lay:
+                    c["lengths"] = lay
+                out.append(c)
     for c in out:
         c["name"] = F.case_name(c)
     for op in ("nth", "head", "tail"):
@@ -46,12 +56,15 @@ def validate(E, seed, tier):
 
 
 META = {
-    "glue": ['groupby_lib/groupby/numba.py::find_first_n', 'groupby_lib/groupby/numba.py::find_last_n'],
+    "glue": ['groupby_lib/groupby/numba.py::find_first_n', 'groupby_lib/groupby/numba.py::find_last_n', 'groupby_lib/groupby/core.py::head',
+             'groupby_lib/groupby/core.py::tail', 'groupby_lib/groupby/core.py::nth', 'groupby_lib/groupby/core.py::_unify_group_key_chunks'],
     "bounds": {"quick": {"N": 4, "G": 2, "n_nth": "-5..5", "n_head_tail": "0..5", "inductive": "row index and counts < 2^40, G=2"},
                "thorough": {"N": 7, "G": 3, "n_nth": "-8..8", "n_head_tail": "0..8", "inductive": "row index and counts < 2^40, G=3"}},
     "enumerated": ["n", "mask present or not"],
     "symbolic": ["group codes", "boolean mask bits", "inductive step: row index, per-group visit counts, n, the row's code and mask bit"],
     "assumptions": ["positions only: the positional take / index restoration in GroupBy._get_row_selection is pandas code (outside)",
+                    "GroupBy.head/tail/nth: the real methods run on directly constructed states (contiguous codes; chunked codes with per-chunk "
+                    "dictionaries, N=4 quick / 6 thorough); _get_row_selection is cut to 'return the positions'",
                     "inductive step: pre-state = any state satisfying 'seen = count wrapped into the counter dtype, out = what the "
                     "definition gives after that many rows'; such states are reachable by a group with that many rows, which is how a "
                     "counterexample is replayed", "NumPy/numba models (DESIGN 3.5)"],
